@@ -463,29 +463,19 @@ pzgstrf_WorkInit(int_t n, int_t panel_size, int_t **iworkptr, doublecomplex **dw
     if ( whichspace == SYSTEM )
 	*dworkptr = (doublecomplex *) SUPERLU_MALLOC((size_t) dsize);
     else {
-	    *dworkptr = (doublecomplex *) zuser_malloc(dsize, TAIL);
+	    /* Room to re-align the array is requested together with the array:
+	       shifting it after the request has returned would move it into
+	       space that another thread may have been given in the meantime. */
+	    *dworkptr = (doublecomplex *) zuser_malloc(dsize + sizeof(double), TAIL);
 #ifdef SLU_MT_VERIF
 	    SLUV_YIELD(SLUV_Y_WORK_ALIGN);
 #endif
-	    if ( NotDoubleAlign(*dworkptr) ) {
+	    if ( *dworkptr && NotDoubleAlign(*dworkptr) ) {
 	        old_ptr = *dworkptr;
 	        *dworkptr = (doublecomplex*) DoubleAlign(*dworkptr);
-	        *dworkptr = (doublecomplex*) ((double*)*dworkptr - 1);
-	        extra = (char*)old_ptr - (char*)*dworkptr;
+	        extra = (char*)*dworkptr - (char*)old_ptr;
 #if ( DEBUGlevel>=1 )
 	        printf("pzgstrf_WorkInit: not aligned, extra" IFMT "\n", extra);
-#endif	    
-#if ( MACH==PTHREAD ) /* Use pthread ... */
-        pthread_mutex_lock( &stack.lock );
-#elif ( MACH==OPENMP ) /* Use openMP ... */
-#pragma omp critical ( STACK_LOCK )
-#endif
-              {
-	        stack.top2 -= extra;
-	        stack.used += extra;
-	      }
-#if ( MACH==PTHREAD ) /* Use pthread ... */
-        pthread_mutex_unlock( &stack.lock );
 #endif
 	    }
     } /* else */
